@@ -17,7 +17,11 @@ RULE = (
     "shared files + random subsets; quick: a seeded sample that always contains a shared-file single) and a "
     "configuration (destination class x destination index): fault-free round, faulty round, fault-free retry on the "
     "result, and one crash round per abort point n=1..attempts of the faulty round, each on a fresh copy of the "
-    "initial destination; plus scenarios where listed source files vanish between the status phase and the uploads; the closure audit runs after every upload attempt and at the end of every round. Separate oracle-only stream: index-level pushes of a DataIndex (a file entry + 1-2 directory entries sharing "
+    "initial destination; plus scenarios where listed source files vanish between the status phase and the uploads; the closure audit runs after every upload attempt and at the end of every round. Sharing chains A-f-B-g-C(-h-D) (consecutive directories share one file): salts are drawn until "
+    "the observed directory-loop order A,B,C (<=30 draws) and >=3 (thorough: 6) distinct orders were seen, then every "
+    "single-file failure (thorough: + pairs) with retry and a crash round per abort point. ~20% of the listings "
+    "carry special relpaths (backslash, leading dots, spaces, unicode, json-escaped characters), ~8% twins "
+    "`x/y` vs `x\\y`; listings are read back from the real bytes with json.loads only. Separate oracle-only stream: index-level pushes of a DataIndex (a file entry + 1-2 directory entries sharing "
     "a file, lazily loaded or with explicit children) from a cache lacking 0-2 listed files to an empty / closed "
     "remote through the fault-injecting file system, then a retry after the cache was restored. A "
     "scenario is non-trivial when an upload happened and a failure, crash, verification drop, file missing on both "
@@ -101,6 +105,66 @@ def _history(ctx, case, notes, items):
     return n
 
 
+def _chain_rounds(ctx, case, F, cls, dix, items, notes):
+    case = copy.deepcopy(case)
+    case["dst_cls"] = cls
+    case["dix"] = dix
+    case["rounds"] = [{"fails": list(F), "crash": None, "reset": True}, {"fails": [], "crash": None, "reset": False}]
+    S = TC.run_scenario(ctx, case, crash_all=True)
+    try:
+        ctx.count("chain-order:" + TC.chain_order([S.tok[o] for o in S.rounds[0]["dirorder"]]))
+        return len(_judge_and_register(ctx, S, notes, items))
+    finally:
+        S.close()
+
+
+def _chains(ctx, items):
+    import itertools
+
+    n = 0
+    allc = [(cls, dix) for cls in ("local", "base") for dix in (False, True)]
+    # corpus: the 3-chain that runs A, B, C; the shared file f fails; both destination classes
+    for shallow in (True, False):
+        case, salt = TC.corpus_chain(ctx, shallow)
+        if case is None:
+            ctx.count("chain:corpus-order-not-found")
+            continue
+        ctx.count("chain:corpus-salt=" + salt)
+        for cls in ("local", "base"):
+            n += _chain_rounds(ctx, case, ["f1"], cls, shallow and cls == "base", items, ["corpus", "chain"])
+    want = 3 if ctx.tier != "thorough" else 6
+    for _ in range(ctx.n(2, 4)):
+        shallow = ctx.rng.random() < 0.5
+        size = 4 if ctx.rng.random() < 0.3 else 3
+        seen = {}
+        for _draw in range(30):
+            case = TC.chain_case("%08x" % ctx.rng.getrandbits(32), shallow, size)
+            _ups, order = TC.probe_round(ctx, case)
+            seen.setdefault(TC.chain_order(order), case)
+            if "ABC" in seen and len(seen) >= want:
+                break
+        ctx.count("chain:bases")
+        ctx.count("chain:orders-seen=%d" % len(seen))
+        if "ABC" not in seen:
+            ctx.count("chain:no-ABC-in-30-draws")
+        keys = (["ABC"] if "ABC" in seen else []) + [k for k in seen if k != "ABC"]
+        for key in keys[:want]:
+            case = seen[key]
+            ftoks = list(case["files"])
+            shared = ["f1", "f3"] + (["f5"] if size == 4 else [])
+            if ctx.tier == "thorough":
+                fsets = [[f] for f in ftoks] + [list(c) for c in itertools.combinations(ftoks, 2)]
+            elif key == "ABC":
+                fsets = [[f] for f in ftoks]
+            else:
+                fsets = [[f] for f in shared]
+            for F in fsets:
+                cls, dix = ctx.rng.choice(allc)
+                n += _chain_rounds(ctx, case, F, cls, dix, items,
+                                   ["chain", "chain:size=%d" % size, "mode-chain:" + ("shallow" if shallow else "expand")])
+    return n
+
+
 def run(ctx):
     items = []
     n_problems = 0
@@ -116,6 +180,9 @@ def run(ctx):
             n_problems += len(_judge_and_register(ctx, S, ["corpus"], items))
         finally:
             S.close()
+    # ---- sharing chains A -f- B -g- C (-h- D): every single-file failure (pairs in thorough) under
+    # the observed directory-loop orders; the order A,B,C is always among them
+    n_problems += _chains(ctx, items)
     # ---- generated
     nbase = ctx.n(45, 24)
     per_base = ctx.n(2, 40)
